@@ -198,3 +198,62 @@ def witness_K11_no_grid_point():
     s = schema.float.min(0.11).max(0.19).precision(1)
     (k, val), _ = SR.generate(s, SR.make_policy("lo", None))
     return (not validate(s, 0.15).has_errors()) and k == "exc"
+
+
+# ---------------------------------------------------------------------------------------------
+# C17
+
+def pattern_has_negation(p):
+    import sys
+    try:
+        import re._parser as sre
+        import re._constants as src
+    except ImportError:  # pragma: no cover
+        import sre_parse as sre
+        import sre_constants as src
+
+    def walk(items):
+        for op, av in items:
+            if op == src.NOT_LITERAL:
+                return True
+            if op == src.IN and av and av[0][0] == src.NEGATE:
+                return True
+            if op == src.SUBPATTERN and walk(av[3]):
+                return True
+            if op in (src.MAX_REPEAT, src.MIN_REPEAT) and walk(av[2]):
+                return True
+            if op == src.BRANCH and any(walk(a) for a in av[1]):
+                return True
+        return False
+    try:
+        return walk(sre.parse(p))
+    except Exception:
+        return False
+
+
+def has_negated_class(s):
+    from d42.declaration.types import StrSchema
+    for x in _walk(s):
+        if isinstance(x, StrSchema):
+            p = x.props.get("pattern")
+            if p is not Nil and x.props.get("value") is Nil and pattern_has_negation(p):
+                return True
+    return False
+
+
+def class_K1_negated_class_order(v):
+    return bool(v.get("negated_class"))
+
+
+def witness_K1_negated_class_order():
+    import os
+    import subprocess
+    import sys
+    from .common import REPO
+    code = ("import sys; sys.path.insert(0, %r); from d42 import fake, schema; from d42.generation import Random; "
+            "Random().set_seed(7); print(fake(schema.str.regex('[^a]{6}')))" % REPO)
+    outs = set()
+    for hs in ("1", "2", "3"):
+        env = dict(os.environ, PYTHONHASHSEED=hs)
+        outs.add(subprocess.run([sys.executable, "-c", code], env=env, stdout=subprocess.PIPE).stdout)
+    return len(outs) > 1
